@@ -24,7 +24,7 @@
   * `shared_vars` is a collection of strings (`dap4_ce in shared_vars` is membership): `shared`.
   * `general_base` (the result of `compute_base_url_prefix`, or None) is given by its `urlparse` parts.
 -/
-namespace Pydap
+namespace Pydap.CK
 
 structure Req where
   scheme : List Char
@@ -131,4 +131,4 @@ def customKey := customKeyWith underBase
 /-- `custom_create_key` as the code was (text-prefix containment, host of the base ignored) -/
 def customKeyPrefix := customKeyWith underBasePrefix
 
-end Pydap
+end Pydap.CK
